@@ -64,7 +64,8 @@ prop('C04',
      title='Zone-aware date-times: one instant, many wall clocks',
      verus=['datetime', 'time'],
      kani=['vk_fixed_offset_ctor', 'vk_dt_eq_ord_hash', 'vk_dt_from_utc_conversions', 'vk_dt_from_local', 'vk_dt_wallclock_date_getters', 'vk_dt_wallclock_time_getters'],
-     kani_thorough=['vk_dt_wallclock_week_getters'],
+     kani_thorough=['vk_dt_wallclock_week_getters', 'vk_dt_with_time', 'vk_dt_with_time_fields', 'vk_dt_months', 'vk_dt_with_year', 'vk_dt_with_month', 'vk_dt_with_day', 'vk_dt_with_ordinal'],
+     kani_timeout=3000,
      twin=['zoned', 'datetime'],
      uncovered=['DateTime<Tz>::with_* / checked_add_days / checked_add_months (map_local closures + TimeZone::from_local_datetime of an arbitrary Tz)',
                 'formatting of DateTime (core::fmt)', 'time zones other than Utc / FixedOffset (Local is C05)', 'DateTime::naive_local/date_naive (documented to panic out of range)'],
